@@ -1,6 +1,6 @@
 (* C01: round trip through the real decoder model, interop with the spec-derived codec,
    soundness of the boolean checkers of C01Check.v. Proofs only. *)
-From VT Require Import Base.PyStrProofs Codec.JsonProofs Codec.PacketProofs Codec.SpecProofs.
+From VT Require Import Base.PyStrProofs Codec.JsonProofs Codec.JsonParse Codec.JsonInj Codec.PacketProofs Codec.SpecProofs.
 From VT Require Import Codec.Packet Codec.SpecCodec Check.C01Check.
 From Coq Require Import Lia ZifyBool ZifyN.
 Open Scope N_scope.
@@ -8,39 +8,40 @@ Open Scope N_scope.
 (* ---------- what json.loads is assumed to invert ---------- *)
 (* wf_data without bytes leaves and without the reserved-key restriction (the text the
    encoder hands to json.dumps contains the placeholder dicts) *)
-Definition str_key (k : pv) : bool := match k with PStr _ => true | _ => false end.
-(* shape of a finite float literal as repr() prints it: digits, sign, '.', 'e'; at least one
-   of '.' / 'e' (this keeps float texts apart from every other JSON text, so that an
-   inverse of the printer can exist at all) *)
-Definition float_char (c : N) : bool := adigit c || (c =? 43) || (c =? 45) || (c =? 46) || (c =? 101).
-Definition float_tok (t : str) : bool :=
-  match t with [] => false | _ => forallb float_char t && existsb (fun c => (c =? 46) || (c =? 101)) t end.
+(* float tokens must have float shape (float_tok), strings must be str_ok (code points below
+   U+110000, no high surrogate directly followed by a low surrogate): both from Codec/JsonParse.v;
+   without them json_dumps is not injective and no json.loads can invert it *)
 Fixpoint jsonable (v : pv) : bool :=
   match v with
-  | PNone | PBool _ | PStr _ => true
+  | PNone | PBool _ => true
+  | PStr s => str_ok s
   | PInt z => Nat.leb (List.length (str_of_Z z)) 100
   | PFloat t => float_tok t
   | PList l => (fix go (l : list pv) : bool := match l with [] => true | x :: r => jsonable x && go r end) l
-  | PDict kv => keys_distinct (map fst kv) && forallb str_key (map fst kv) &&
+  | PDict kv => keys_distinct (map fst kv) && forallb pkey (map fst kv) &&
                 (fix go (kv : list (pv * pv)) : bool :=
                    match kv with [] => true | (_, x) :: r => jsonable x && go r end) kv
   | PBytes _ | PTuple _ | PObj _ => false
   end.
-(* every float token of the payload is a float literal *)
-Fixpoint floats_ok (v : pv) : bool :=
+(* lexical side condition on the payload: every float token is a float literal, every string
+   (values and dict keys) is str_ok *)
+Definition key_lex (k : pv) : bool := match k with PStr s => str_ok s | _ => true end.
+Fixpoint lex_ok (v : pv) : bool :=
   match v with
   | PFloat t => float_tok t
-  | PList l => (fix go (l : list pv) : bool := match l with [] => true | x :: r => floats_ok x && go r end) l
-  | PDict kv => (fix go (kv : list (pv * pv)) : bool :=
-                   match kv with [] => true | (_, x) :: r => floats_ok x && go r end) kv
+  | PStr s => str_ok s
+  | PList l => (fix go (l : list pv) : bool := match l with [] => true | x :: r => lex_ok x && go r end) l
+  | PDict kv => forallb key_lex (map fst kv) &&
+                (fix go (kv : list (pv * pv)) : bool :=
+                   match kv with [] => true | (_, x) :: r => lex_ok x && go r end) kv
   | _ => true
   end.
-Definition floats_list : list pv -> bool :=
-  fix go (l : list pv) : bool := match l with [] => true | x :: r => floats_ok x && go r end.
-Definition floats_dict : list (pv * pv) -> bool :=
-  fix go (kv : list (pv * pv)) : bool := match kv with [] => true | (_, x) :: r => floats_ok x && go r end.
-Lemma floats_PList l : floats_ok (PList l) = floats_list l.  Proof. reflexivity. Qed.
-Lemma floats_PDict kv : floats_ok (PDict kv) = floats_dict kv.  Proof. reflexivity. Qed.
+Definition lex_list : list pv -> bool :=
+  fix go (l : list pv) : bool := match l with [] => true | x :: r => lex_ok x && go r end.
+Definition lex_dict : list (pv * pv) -> bool :=
+  fix go (kv : list (pv * pv)) : bool := match kv with [] => true | (_, x) :: r => lex_ok x && go r end.
+Lemma lex_PList l : lex_ok (PList l) = lex_list l.  Proof. reflexivity. Qed.
+Lemma lex_PDict kv : lex_ok (PDict kv) = forallb key_lex (map fst kv) && lex_dict kv.  Proof. reflexivity. Qed.
 Definition jsonable_list : list pv -> bool :=
   fix go (l : list pv) : bool := match l with [] => true | x :: r => jsonable x && go r end.
 Definition jsonable_dict : list (pv * pv) -> bool :=
@@ -51,15 +52,19 @@ Definition wf_dict : list (pv * pv) -> bool :=
   fix go (kv : list (pv * pv)) : bool := match kv with [] => true | (_, x) :: r => wf_data x && go r end.
 Lemma jsonable_PList l : jsonable (PList l) = jsonable_list l.  Proof. reflexivity. Qed.
 Lemma jsonable_PDict kv : jsonable (PDict kv) =
-  keys_distinct (map fst kv) && forallb str_key (map fst kv) && jsonable_dict kv.
+  keys_distinct (map fst kv) && forallb pkey (map fst kv) && jsonable_dict kv.
 Proof. reflexivity. Qed.
 Lemma wf_PList l : wf_data (PList l) = wf_list l.  Proof. reflexivity. Qed.
 Lemma wf_PDict kv : wf_data (PDict kv) =
   keys_distinct (map fst kv) && forallb key_ok (map fst kv) && wf_dict kv.
 Proof. reflexivity. Qed.
 
-Lemma key_ok_str_key k : key_ok k = true -> str_key k = true.
-Proof. destruct k; cbn; congruence. Qed.
+Lemma key_ok_pkey l : forallb key_ok l = true -> forallb key_lex l = true -> forallb pkey l = true.
+Proof.
+  induction l as [|k l IH]; [reflexivity|]. cbn [forallb]. intros H1 H2.
+  apply andb_true_iff in H1 as [H1 H1']. apply andb_true_iff in H2 as [H2 H2'].
+  rewrite (IH H1' H2'). destruct k; try discriminate H1. cbn [pkey key_lex] in *. rewrite H2. reflexivity.
+Qed.
 Lemma key_ok_no_ph k : key_ok k = true -> negb (py_eq k k_placeholder) = true.
 Proof. destruct k; cbn [key_ok]; try discriminate. intro H. exact H. Qed.
 
@@ -100,25 +105,26 @@ Proof.
   lia.
 Qed.
 
-Lemma wf_jsonable_subst : forall v, wf_data v = true -> floats_ok v = true -> forall n,
+Lemma wf_jsonable_subst : forall v, wf_data v = true -> lex_ok v = true -> forall n,
   N.of_nat n + N.of_nat (List.length (leaves v)) <= 10000000000 -> jsonable (subst v n) = true.
 Proof.
   induction v as [| | | | | |l IH|l IH|kv IH|o] using pv_ind'; intros H Hf n Hn;
     try reflexivity; try exact H; try exact Hf; try discriminate.
   - cbn [subst]. apply placeholder_jsonable. cbn [leaves List.length] in Hn. lia.
-  - rewrite wf_PList in H. rewrite floats_PList in Hf. rewrite subst_PList, jsonable_PList. rewrite leaves_PList in Hn.
+  - rewrite wf_PList in H. rewrite lex_PList in Hf. rewrite subst_PList, jsonable_PList. rewrite leaves_PList in Hn.
     revert n Hn. induction IH as [|x l Hx Hl IHl]; intros n Hn; [reflexivity|].
     cbn [wf_list] in H. fold wf_list in H. apply andb_true_iff in H as [H1 H2].
-    cbn [floats_list] in Hf. fold floats_list in Hf. apply andb_true_iff in Hf as [Hf1 Hf2].
+    cbn [lex_list] in Hf. fold lex_list in Hf. apply andb_true_iff in Hf as [Hf1 Hf2].
     cbn [leaves_list] in Hn. fold leaves_list in Hn. rewrite app_length in Hn.
     cbn [subst_list jsonable_list]. fold subst_list jsonable_list.
     rewrite (Hx H1 Hf1) by lia. rewrite (IHl H2 Hf2) by lia. reflexivity.
-  - rewrite wf_PDict in H. rewrite floats_PDict in Hf. rewrite subst_PDict, jsonable_PDict. rewrite leaves_PDict in Hn.
+  - rewrite wf_PDict in H. rewrite lex_PDict in Hf. rewrite subst_PDict, jsonable_PDict. rewrite leaves_PDict in Hn.
     apply andb_true_iff in H as [H H3]. apply andb_true_iff in H as [Hd Hk].
-    rewrite map_fst_subst_dict, Hd. rewrite (forallb_impl _ _ _ key_ok_str_key Hk). cbn [andb].
-    clear Hd Hk. revert n Hn. induction IH as [|[k x] kv [_ Hx] Hl IHl]; intros n Hn; [reflexivity|].
+    apply andb_true_iff in Hf as [Hfk Hf].
+    rewrite map_fst_subst_dict, Hd. rewrite (key_ok_pkey _ Hk Hfk). cbn [andb].
+    clear Hd Hk Hfk. revert n Hn. induction IH as [|[k x] kv [_ Hx] Hl IHl]; intros n Hn; [reflexivity|].
     cbn [snd] in Hx. cbn [wf_dict] in H3. fold wf_dict in H3. apply andb_true_iff in H3 as [H1 H2].
-    cbn [floats_dict] in Hf. fold floats_dict in Hf. apply andb_true_iff in Hf as [Hf1 Hf2].
+    cbn [lex_dict] in Hf. fold lex_dict in Hf. apply andb_true_iff in Hf as [Hf1 Hf2].
     cbn [leaves_dict] in Hn. fold leaves_dict in Hn. rewrite app_length in Hn.
     cbn [subst_dict jsonable_dict]. fold subst_dict jsonable_dict.
     rewrite (Hx H1 Hf1) by lia. rewrite (IHl H2 Hf2) by lia. reflexivity.
@@ -478,7 +484,7 @@ Section RoundTrip.
   Hypothesis loads_dumps : forall v s, jsonable v = true -> json_dumps v = Ok s -> loads s = Ok v.
 
   Lemma oracle_pointwise t data ns id p f atts :
-    wf_input t data ns id = true -> floats_ok data = true ->
+    wf_input t data ns id = true -> lex_ok data = true ->
     ctor true t data ns id None = Ok p ->
     encode p = Ok (f, atts) ->
     N.of_nat (List.length (atts_of atts)) < 10000000000 ->
@@ -499,7 +505,7 @@ Section RoundTrip.
   Qed.
 
   Theorem roundtrip_partial t data ns id p f atts :
-    wf_input t data ns id = true -> floats_ok data = true ->
+    wf_input t data ns id = true -> lex_ok data = true ->
     ctor true t data ns id None = Ok p ->
     encode p = Ok (f, atts) ->
     N.of_nat (List.length (atts_of atts)) < 10000000000 ->
@@ -510,7 +516,7 @@ Section RoundTrip.
   Qed.
 
   Theorem interop_spec_decode t data ns id p f atts :
-    wf_input t data ns id = true -> floats_ok data = true ->
+    wf_input t data ns id = true -> lex_ok data = true ->
     ctor true t data ns id None = Ok p ->
     encode p = Ok (f, atts) ->
     N.of_nat (List.length (atts_of atts)) < 10000000000 ->
@@ -522,7 +528,7 @@ Section RoundTrip.
   Qed.
 
   Theorem interop_spec_encode t data ns id p f atts :
-    wf_input t data ns id = true -> floats_ok data = true ->
+    wf_input t data ns id = true -> lex_ok data = true ->
     ctor true t data ns id None = Ok p ->
     spec_encode p = Ok (f, atts) ->
     N.of_nat (List.length (atts_of atts)) < 10000000000 ->
@@ -638,7 +644,7 @@ Definition ex_loads : str -> Res pv :=
   table_loads [(skipn 17 ex_f, Ok (subst ex_data 0))].
 
 Example ex_hypotheses :
-  wf_input 2 ex_data ex_ns ex_id = true /\ floats_ok ex_data = true /\
+  wf_input 2 ex_data ex_ns ex_id = true /\ lex_ok ex_data = true /\
   ctor true 2 ex_data ex_ns ex_id None = Ok ex_p /\
   encode ex_p = Ok (ex_f, Some ex_atts) /\
   N.of_nat (List.length (atts_of (Some ex_atts))) < 10000000000 /\
@@ -699,3 +705,88 @@ Proof. apply enc_ok_sound; vm_compute; reflexivity. Qed.
 Theorem recon_decon_wf v : wf_data v = true ->
   recon (fst (decon v [])) (map PBytes (snd (decon v []))) = Ok v.
 Proof. intro H. apply recon_decon, wf_ph_free, H. Qed.
+
+(* ---------- the JSON oracle discharged: json.loads := the concrete parser ---------- *)
+Lemma jsonable_parseable : forall v, jsonable v = true -> parseable v = true.
+Proof.
+  induction v as [| | | | | |l IH|l IH|kv IH|o] using pv_ind'; intro H; try exact H; try reflexivity.
+  - rewrite jsonable_PList in H. rewrite parseable_PList.
+    induction IH as [|x l Hx Hl IHl]; [reflexivity|].
+    cbn [jsonable_list] in H. fold jsonable_list in H. apply andb_true_iff in H as [H1 H2].
+    cbn [parseable_list]. fold parseable_list. rewrite (Hx H1), (IHl H2). reflexivity.
+  - rewrite jsonable_PDict in H. rewrite parseable_PDict.
+    apply andb_true_iff in H as [H H3]. apply andb_true_iff in H as [_ Hk]. rewrite Hk. cbn [andb].
+    clear Hk. induction IH as [|[k x] kv [_ Hx] Hl IHl]; [reflexivity|]. cbn [snd] in Hx.
+    cbn [jsonable_dict] in H3. fold jsonable_dict in H3. apply andb_true_iff in H3 as [H1 H2].
+    cbn [parseable_dict]. fold parseable_dict. rewrite (Hx H1), (IHl H2). reflexivity.
+Qed.
+
+Theorem loads_dumps_jsonable v s : jsonable v = true -> json_dumps v = Ok s -> json_loads s = Ok v.
+Proof. intros H. apply loads_dumps, jsonable_parseable, H. Qed.
+
+Theorem json_dumps_injective_jsonable v1 v2 s :
+  jsonable v1 = true -> jsonable v2 = true ->
+  json_dumps v1 = Ok s -> json_dumps v2 = Ok s -> v1 = v2.
+Proof. intros H1 H2. apply json_dumps_injective; apply jsonable_parseable; assumption. Qed.
+
+Theorem loads_exists_jsonable :
+  exists loads : str -> Res pv,
+    forall v s, jsonable v = true -> json_dumps v = Ok s -> loads s = Ok v.
+Proof. exists json_loads. exact loads_dumps_jsonable. Qed.
+
+Theorem roundtrip_concrete t data ns id p f atts :
+  wf_input t data ns id = true -> lex_ok data = true ->
+  ctor true t data ns id None = Ok p ->
+  encode p = Ok (f, atts) ->
+  N.of_nat (List.length (atts_of atts)) < 10000000000 ->
+  RT_concl json_loads t data ns id f (atts_of atts).
+Proof. exact (roundtrip_partial json_loads loads_dumps_jsonable t data ns id p f atts). Qed.
+
+Theorem roundtrip_total_concrete t data ns id :
+  wf_input t data ns id = true -> lex_ok data = true ->
+  (has_bytes data = true -> (t = 2 \/ t = 3)%Z) ->
+  N.of_nat (List.length (leaves data)) < 10000000000 ->
+  exists p f atts, ctor true t data ns id None = Ok p /\ encode p = Ok (f, atts) /\
+                   atts_of atts = leaves data /\
+                   RT_concl json_loads t data ns id f (leaves data).
+Proof.
+  intros Hwf Hlex Hbin Hcnt. destruct (encode_total t data ns id Hwf Hbin) as (p & f & atts & Hc & He & Ha).
+  exists p, f, atts. repeat split; try assumption. rewrite <- Ha.
+  apply (roundtrip_concrete t data ns id p f atts Hwf Hlex Hc He). rewrite Ha. exact Hcnt.
+Qed.
+
+Theorem interop_spec_decode_concrete t data ns id p f atts :
+  wf_input t data ns id = true -> lex_ok data = true ->
+  ctor true t data ns id None = Ok p ->
+  encode p = Ok (f, atts) ->
+  N.of_nat (List.length (atts_of atts)) < 10000000000 ->
+  spec_decode json_loads f =
+  Ok (mkSpec (promoted t data None) (sns_of ns) id (subst data 0) (N.of_nat (List.length (atts_of atts)))).
+Proof. exact (interop_spec_decode json_loads loads_dumps_jsonable t data ns id p f atts). Qed.
+
+Theorem interop_spec_encode_concrete t data ns id p f atts :
+  wf_input t data ns id = true -> lex_ok data = true ->
+  ctor true t data ns id None = Ok p ->
+  spec_encode p = Ok (f, atts) ->
+  N.of_nat (List.length (atts_of atts)) < 10000000000 ->
+  RT_concl json_loads t data ns id f (atts_of atts).
+Proof. exact (interop_spec_encode json_loads loads_dumps_jsonable t data ns id p f atts). Qed.
+
+(* the example packet through the concrete parser, strings with control, non-BMP and lone
+   surrogate characters included *)
+Example ex_concrete :
+  let d := PList [PStr (s2l "ev"); PStr [10; 34; 92; 233; 128512; 55357; 65; 56832]; PBytes [7];
+                  PDict [(PStr [8364], PList [PInt (-30); PFloat (s2l "-1.5e-07"); PBool false; PNone])]] in
+  wf_input 2 d ex_ns ex_id = true /\ lex_ok d = true /\
+  (p <- ctor true 2 d ex_ns ex_id None ;;
+   '(f, atts) <- encode p ;;
+   r <- decode json_loads (PStr f) ;;
+   '(r', flags) <- add_all r (map PBytes (atts_of atts)) ;;
+   Ok (rt_ok 2 d ex_ns ex_id None (map PBytes (atts_of atts)) (Ok (rp r', rcount r, flags)))) = Ok true.
+Proof. repeat split; vm_compute; reflexivity. Qed.
+
+Example ex_concrete_thm : RT_concl json_loads 2 ex_data ex_ns ex_id ex_f ex_atts.
+Proof.
+  destruct ex_hypotheses as (H1 & H0 & H2 & H3 & H4 & _).
+  exact (roundtrip_concrete 2 ex_data ex_ns ex_id ex_p ex_f (Some ex_atts) H1 H0 H2 H3 H4).
+Qed.
